@@ -3,12 +3,19 @@
 package sqlite
 
 // C18 — restart is transparent.  A host built from the real managers is driven through a
-// generated operation sequence (contracts with sector roots of both versions, renewals,
-// volumes with stored sectors, accounts and budgets, settings, webhooks with scopes,
-// registry entries, mined blocks that move the processed tip and expire contracts); at
-// random points every exported getter of every manager is recorded, the host is closed
-// (or abandoned without closing anything: abrupt stop) and re-constructed on the same data
-// directory, and everything is recorded again.  Webhook deliveries go to a local HTTP sink.
+// generated operation sequence (contracts with sector roots of both versions — grown,
+// rewritten and shrunk —, renewals, volumes with stored sectors, accounts and budgets,
+// settings, webhooks with scopes, registry entries, mined blocks that move the processed tip
+// and expire contracts, volume data files that are moved away and brought back); at random
+// points, and with preference right after an operation that wrote to the store, every
+// exported getter of every manager is recorded, the host is closed (or abandoned without
+// closing anything: abrupt stop) and re-constructed on the same data directory, and
+// everything is recorded again.  Webhook deliveries go to a local HTTP sink.
+//
+// No observation depends on timing: deliveries are awaited by count (the hook list tells how
+// many) under a long deadline, the indexer is awaited until its tip equals the chain's (it
+// publishes the tip after its post-commit actions), background resizes are awaited through
+// their result channel.
 
 import (
 	"bytes"
@@ -24,6 +31,7 @@ import (
 	"net/http/httptest"
 	"os"
 	"path/filepath"
+	"runtime/debug"
 	"sort"
 	"strings"
 	"sync"
@@ -34,6 +42,7 @@ import (
 	rhp3 "go.sia.tech/core/rhp/v3"
 	proto4 "go.sia.tech/core/rhp/v4"
 	"go.sia.tech/core/types"
+	"go.sia.tech/coreutils"
 	"go.sia.tech/coreutils/chain"
 	rhp4 "go.sia.tech/coreutils/rhp/v4"
 	"go.sia.tech/hostd/v2/host/accounts"
@@ -45,56 +54,89 @@ import (
 
 // ---- webhook sink
 
+// Deliveries are asynchronous HTTP requests.  Every probe round carries its own event name,
+// so a delivery can never be attributed to another round, and collect waits for the number
+// of deliveries the registered hooks call for (generous deadline: scheduling delays on a
+// loaded machine must not turn into a missing delivery) before it applies a short quiet
+// period whose only purpose is to catch deliveries that should NOT have been made.
+type verifDelivery struct{ event, scope, path string }
+
 type verifSink struct {
-	mu   sync.Mutex
-	got  []string // callback paths, one per delivery
-	srv  *httptest.Server
-	seen int
+	mu       sync.Mutex
+	got      []verifDelivery
+	srv      *httptest.Server
+	round    int
+	timeouts int
 }
+
+const verifDeliveryDeadline = 45 * time.Second
 
 func newVerifSink() *verifSink {
 	s := &verifSink{}
 	s.srv = httptest.NewServer(http.HandlerFunc(func(w http.ResponseWriter, r *http.Request) {
-		io.Copy(io.Discard, r.Body)
+		body, _ := io.ReadAll(r.Body)
+		var ev struct {
+			Event string `json:"event"`
+			Scope string `json:"scope"`
+		}
+		json.Unmarshal(body, &ev)
 		s.mu.Lock()
-		s.got = append(s.got, r.URL.Path)
+		s.got = append(s.got, verifDelivery{ev.Event, ev.Scope, r.URL.Path})
 		s.mu.Unlock()
 		w.WriteHeader(http.StatusOK)
 	}))
 	return s
 }
 
-// collect waits until no delivery arrived for a while and returns the paths delivered
-// since the last collect, sorted.
-func (s *verifSink) collect() []string {
-	last, stable := -1, 0
-	for i := 0; i < 400; i++ {
-		s.mu.Lock()
-		n := len(s.got)
-		s.mu.Unlock()
-		if n == last {
-			stable++
-			if stable >= 12 {
-				break
-			}
-		} else {
-			last, stable = n, 0
-		}
-		time.Sleep(time.Millisecond)
-	}
+// nextEvent names the next probe round
+func (s *verifSink) nextEvent() string {
 	s.mu.Lock()
 	defer s.mu.Unlock()
-	out := append([]string(nil), s.got[s.seen:]...)
-	s.seen = len(s.got)
-	sort.Strings(out)
+	s.round++
+	return fmt.Sprintf("verif%d", s.round)
+}
+
+func (s *verifSink) of(event string) []verifDelivery {
+	s.mu.Lock()
+	defer s.mu.Unlock()
+	var out []verifDelivery
+	for _, d := range s.got {
+		if d.event == event {
+			out = append(out, d)
+		}
+	}
 	return out
 }
 
-// drain forgets what was delivered so far without waiting
-func (s *verifSink) drain() {
+// collect returns the deliveries of one probe round: it waits until want of them have
+// arrived (or the long deadline has passed), then until none arrived for a short while.
+func (s *verifSink) collect(event string, want int) []verifDelivery {
+	deadline := time.Now().Add(verifDeliveryDeadline)
+	if s.timeouts >= 3 {
+		// the code under test keeps delivering less than its own hook list calls for: a
+		// finding has been recorded each time, do not spend the whole budget waiting
+		deadline = time.Now().Add(2 * time.Second)
+	}
+	for len(s.of(event)) < want {
+		if time.Now().After(deadline) {
+			s.timeouts++
+			break
+		}
+		time.Sleep(500 * time.Microsecond)
+	}
+	last, quietSince := len(s.of(event)), time.Now()
+	for time.Since(quietSince) < 8*time.Millisecond {
+		time.Sleep(time.Millisecond)
+		if n := len(s.of(event)); n != last {
+			last, quietSince = n, time.Now()
+		}
+	}
+	out := s.of(event)
+	// forget old rounds
 	s.mu.Lock()
-	s.seen = len(s.got)
+	s.got = nil
 	s.mu.Unlock()
+	return out
 }
 
 // ---- the harness's picture of the host
@@ -122,22 +164,24 @@ type verifWorld struct {
 	n         *verifNode
 	sink      *verifSink
 
-	sectors  []types.Hash256 // stored sectors (index = root number)
-	data     map[types.Hash256]*[rhp2.SectorSize]byte
-	cs       []*verifContract
-	accts    []rhp3.Account
-	accts4   []proto4.Account
-	hooks    []int64 // ids handed out so far (including removed ones)
-	urls     int
-	vols     []int64
-	volPath  map[int64]string
-	regKeys  int
-	budgets  map[int]*accounts.Budget
-	nextBud  int
-	setValue uint64
-	noFaults  bool // directed cases: no injected faults
-	armed     bool // a database fault is armed for the running operation
-	pinFailed bool // the last pin update failed in the store (its in-memory copy is ahead)
+	sectors       []types.Hash256 // stored sectors (index = root number)
+	data          map[types.Hash256]*[rhp2.SectorSize]byte
+	cs            []*verifContract
+	accts         []rhp3.Account
+	accts4        []proto4.Account
+	hooks         []int64 // ids handed out so far (including removed ones)
+	urls          int
+	vols          []int64
+	volPath       map[int64]string
+	hidden        map[int64]bool // volumes whose data file is moved away right now
+	hiddenAtStart map[int64]bool // ... and those whose file was away when the host was last started
+	regKeys       int
+	budgets       map[int]*accounts.Budget
+	nextBud       int
+	setValue      uint64
+	noFaults      bool // directed cases: no injected faults
+	armed         bool // a database fault is armed for the running operation
+	pinFailed     bool // the last pin update failed in the store (its in-memory copy is ahead)
 }
 
 var verifScopeNames = map[string]int{"alerts": 1, "info": 2, "warning": 3, "wallet": 4, "test": 5, "error": 6}
@@ -246,7 +290,12 @@ func (w *verifWorld) snapshot(n *verifNode) map[string]string {
 	vs, err := n.volumes.Volumes()
 	var vl []string
 	for _, v := range vs {
-		vl = append(vl, fmt.Sprintf("{id %d path %s ro %v avail %v total %d used %d status %s}", v.ID, filepath.Base(v.LocalPath), v.ReadOnly, v.Available, v.TotalSectors, v.UsedSectors, v.Status))
+		vl = append(vl, fmt.Sprint(v.ID))
+		out[fmt.Sprintf("storage.VolumeManager.Volumes(#%d)", v.ID)] = fmt.Sprintf("{path %s ro %v total %d used %d}", filepath.Base(v.LocalPath), v.ReadOnly, v.TotalSectors, v.UsedSectors)
+		out[fmt.Sprintf("storage.VolumeManager.Volumes.availability(#%d)", v.ID)] = fmt.Sprintf("{avail %v status %s}", v.Available, v.Status)
+		v1, err := n.volumes.Volume(v.ID)
+		out[fmt.Sprintf("storage.VolumeManager.Volume(#%d)", v.ID)] = fmt.Sprintf("{path %s ro %v total %d used %d} %v", filepath.Base(v1.LocalPath), v1.ReadOnly, v1.TotalSectors, v1.UsedSectors, err)
+		out[fmt.Sprintf("storage.VolumeManager.Volume.availability(#%d)", v.ID)] = fmt.Sprintf("{avail %v status %s}", v1.Available, v1.Status)
 	}
 	out["storage.VolumeManager.Volumes"] = strings.Join(vl, " ") + fmt.Sprint(err)
 	u, tot, err := n.volumes.Usage()
@@ -258,7 +307,8 @@ func (w *verifWorld) snapshot(n *verifNode) map[string]string {
 		if err != nil {
 			out[fmt.Sprintf("storage.VolumeManager.ReadSector(%d)", i)] = "unreadable"
 		} else {
-			h := sha256.Sum256(d[:])
+			// the harness's sectors differ in their first 64 bytes; the tail shows a misplaced read
+			h := sha256.Sum256(append(append([]byte(nil), d[:4096]...), d[len(d)-4096:]...))
 			out[fmt.Sprintf("storage.VolumeManager.ReadSector(%d)", i)] = hex.EncodeToString(h[:6])
 		}
 	}
@@ -280,21 +330,75 @@ func (w *verifWorld) snapshot(n *verifNode) map[string]string {
 	return out
 }
 
-// deliveries: which hooks receive an event of each probe scope
-func (w *verifWorld) deliveries(n *verifNode) map[string]string {
+// expectedDeliveries: how many deliveries the hook list the manager itself reports calls
+// for, per probe scope (one per hook and distinct matching scope).  Used only to know how
+// long to wait, never to judge.
+func (w *verifWorld) expectedDeliveries(n *verifNode) int {
+	hs, _ := n.webhooks.Webhooks()
+	total := 0
+	for _, sc := range verifProbeScopes {
+		for _, h := range hs {
+			seen := map[string]bool{}
+			for _, s := range h.Scopes {
+				if seen[s] {
+					continue
+				}
+				seen[s] = true
+				if s == "all" || s == sc || strings.HasPrefix(sc, s+"/") {
+					total++
+				}
+			}
+		}
+	}
+	return total
+}
+
+// probe broadcasts one event of every probe scope and returns, per scope, the sorted
+// callback paths it was delivered to (the sink reads event name and scope from the body)
+func (w *verifWorld) probe(n *verifNode) (map[string]string, map[string]error) {
+	event := w.sink.nextEvent()
+	want := w.expectedDeliveries(n)
+	errs := map[string]error{}
+	for _, sc := range verifProbeScopes {
+		if err := n.webhooks.BroadcastEvent(event, sc, "x"); err != nil {
+			errs[sc] = err
+		}
+	}
+	per := map[string][]string{}
+	for _, d := range w.sink.collect(event, want) {
+		per[d.scope] = append(per[d.scope], d.path)
+	}
 	out := map[string]string{}
 	for _, sc := range verifProbeScopes {
-		w.sink.drain()
-		if err := n.webhooks.BroadcastEvent("verif", sc, "x"); err != nil {
+		sort.Strings(per[sc])
+		out[sc] = strings.Join(per[sc], ",")
+	}
+	return out, errs
+}
+
+// deliveries: which hooks receive an event of each probe scope
+func (w *verifWorld) deliveries(n *verifNode) map[string]string {
+	got, errs := w.probe(n)
+	out := map[string]string{}
+	for _, sc := range verifProbeScopes {
+		if err := errs[sc]; err != nil {
 			out["webhooks.Manager.BroadcastEvent("+sc+")"] = "ERR " + err.Error()
 			continue
 		}
-		out["webhooks.Manager.BroadcastEvent("+sc+")"] = strings.Join(w.sink.collect(), ",")
+		out["webhooks.Manager.BroadcastEvent("+sc+")"] = got[sc]
 	}
 	return out
 }
 
 func (w *verifWorld) step(op, obs string) { w.em.Step(op, obs) }
+
+// synced waits until the index manager has processed the whole chain.  The deadline only
+// guards against a hang: no observation may depend on how fast the indexer is scheduled.
+func (w *verifWorld) synced() {
+	if !w.n.waitSynced(w.t, 3*time.Minute) {
+		w.t.Fatal("index manager does not catch up with the chain")
+	}
+}
 
 func (w *verifWorld) pathIDs(paths string) string {
 	// "/h3,/h5" -> [3%N; 5%N]
@@ -330,29 +434,72 @@ func (w *verifWorld) observe() {
 	vs, _ := n.volumes.Volumes()
 	var vols []string
 	for _, v := range vs {
-		vols = append(vols, fmt.Sprintf("(%d%%N, (%s, %d%%N, %s))", v.ID, coqBool(v.ReadOnly), v.TotalSectors, coqBool(v.Available)))
+		// status is "ready" or "unavailable" between operations (a resize has finished when its call returns here)
+		vols = append(vols, fmt.Sprintf("(%d%%N, (%s, %d%%N, %s, %s))", v.ID, coqBool(v.ReadOnly), v.TotalSectors, coqBool(v.Available), coqBool(v.Status == "ready")))
 	}
 	w.step("Observe", fmt.Sprintf("OState [%s] [%s] (%d%%N, %d%%N) [%s] [%s] %d%%N",
 		strings.Join(roots, "; "), strings.Join(hooks, "; "), st.Revision, st.IngressLimit, strings.Join(bals, "; "), strings.Join(vols, "; "), n.index.Tip().Height))
+	got, _ := w.probe(n)
 	for _, sc := range verifProbeScopes {
-		w.sink.drain()
-		n.webhooks.BroadcastEvent("verif", sc, "x")
-		w.step("Broadcast "+verifScopeTerm(sc), "ODeliver "+w.pathIDs(strings.Join(w.sink.collect(), ",")))
+		w.step("Broadcast "+verifScopeTerm(sc), "ODeliver "+w.pathIDs(got[sc]))
+	}
+	w.em.Count("op:Observe")
+}
+
+// filesChanged: the volumes whose data file opens now but did not at the last start, or
+// the other way round.  For those the property promises nothing across this restart
+// ("available again if their files open").
+func (w *verifWorld) filesChanged() map[int64]bool {
+	out := map[int64]bool{}
+	for _, id := range w.vols {
+		if w.hidden[id] != w.hiddenAtStart[id] {
+			out[id] = true
+		}
+	}
+	return out
+}
+
+// checkVolumesAfterStart: after a start every volume is flagged available and is "ready"
+// iff its data file was there to be opened; SetReadOnly is accepted iff it is ready.
+func (w *verifWorld) checkVolumesAfterStart() {
+	vs, err := w.n.volumes.Volumes()
+	if err != nil {
+		w.em.Monitor("volumes-unreadable-after-start", err.Error())
+		return
+	}
+	for _, v := range vs {
+		present := !w.hidden[v.ID]
+		if v.Available != present || (v.Status == "ready") != present {
+			w.em.Monitor("volume-availability-after-start", fmt.Sprintf("volume %d: data file present at this start: %v (at the start before: %v) — Volumes() reports available=%v status=%s", v.ID, present, !w.hiddenAtStart[v.ID], v.Available, v.Status))
+		}
+		v1, err := w.n.volumes.Volume(v.ID)
+		if err != nil || v1.Available != v.Available || v1.Status != v.Status {
+			w.em.Monitor("volume-getters-disagree-after-start", fmt.Sprintf("volume %d: Volumes() available=%v status=%s, Volume() available=%v status=%s err=%v", v.ID, v.Available, v.Status, v1.Available, v1.Status, err))
+		}
+		// writing the read-only flag it already has changes nothing and tells whether the volume is accepted
+		err = w.n.volumes.SetReadOnly(v.ID, v.ReadOnly)
+		if (err == nil) != present {
+			w.em.Monitor("volume-acceptance-after-start", fmt.Sprintf("volume %d: data file present at this start: %v — SetReadOnly returns %v", v.ID, present, err))
+		}
 	}
 }
 
 // restart closes (or abandons) the host and re-constructs every manager on the same
 // data directory, comparing every getter and the webhook deliveries before and after.
-func (w *verifWorld) restart(abrupt bool) {
+// It returns the two snapshots (getters and deliveries merged).
+func (w *verifWorld) restart(abrupt bool) (map[string]string, map[string]string) {
 	before := w.snapshot(w.n)
 	beforeD := w.deliveries(w.n)
 	if abrupt {
 		// stop without closing anything: the new process sees the files as they are
 		crash := filepath.Join(w.dir, fmt.Sprintf("crash%d", w.rng.Int()))
 		os.MkdirAll(crash, 0o755)
+		// (the database files; a copy of a volume's data file would read the same bytes the
+		// file holds after Close, sector writes go straight to the file)
 		ents, _ := os.ReadDir(w.n.dir)
+		image := func(name string) bool { return !strings.HasSuffix(name, ".dat") }
 		for _, e := range ents {
-			if !e.IsDir() {
+			if !e.IsDir() && image(e.Name()) {
 				verifCopyRaw(w.t, filepath.Join(w.n.dir, e.Name()), filepath.Join(crash, e.Name()))
 			}
 		}
@@ -360,10 +507,11 @@ func (w *verifWorld) restart(abrupt bool) {
 		// volumes keep their recorded paths: move the crashed image in place of the original
 		old.Close()
 		for _, e := range ents {
-			if !e.IsDir() {
+			if !e.IsDir() && image(e.Name()) {
 				verifCopyRaw(w.t, filepath.Join(crash, e.Name()), filepath.Join(w.n.dir, e.Name()))
 			}
 		}
+		os.RemoveAll(crash)
 		w.em.Count("restart:abrupt")
 	} else {
 		w.n.Close()
@@ -382,8 +530,14 @@ func (w *verifWorld) restart(abrupt bool) {
 			w.em.Monitor("open-alters-database", verifSnap{dump: dumpBefore}.diff(verifSnap{dump: dumpAfter}))
 		}
 	}
+	changed := w.filesChanged()
 	w.n = verifOpenNode(w.t, w.n.dir, w.hostKey, w.cm, true, 3)
-	w.n.waitSynced(w.t, 10*time.Second)
+	w.synced()
+	w.checkVolumesAfterStart()
+	w.hiddenAtStart = map[int64]bool{}
+	for id, h := range w.hidden {
+		w.hiddenAtStart[id] = h
+	}
 	after := w.snapshot(w.n)
 	afterD := w.deliveries(w.n)
 	w.budgets = map[int]*accounts.Budget{}
@@ -394,9 +548,34 @@ func (w *verifWorld) restart(abrupt bool) {
 		keys = append(keys, k)
 	}
 	sort.Strings(keys)
+	switch {
+	case len(changed) > 0:
+		w.em.Count("restart:with a different set of volume files")
+	case len(w.hidden) > 0:
+		for _, h := range w.hidden {
+			if h {
+				w.em.Count("restart:with the same volume file missing as before")
+				break
+			}
+		}
+	}
 	for _, k := range keys {
 		if before[k] == after[k] {
 			continue
+		}
+		if len(changed) > 0 {
+			// a volume whose file went away or came back: its availability and the
+			// readability of its sectors follow the file (checkVolumesAfterStart), all else must stay
+			var id int64
+			if _, err := fmt.Sscanf(k, "storage.VolumeManager.Volumes.availability(#%d)", &id); err == nil && changed[id] {
+				continue
+			}
+			if _, err := fmt.Sscanf(k, "storage.VolumeManager.Volume.availability(#%d)", &id); err == nil && changed[id] {
+				continue
+			}
+			if strings.HasPrefix(k, "storage.VolumeManager.ReadSector(") && (before[k] == "unreadable" || after[k] == "unreadable") {
+				continue
+			}
 		}
 		sig := "restart-changes:" + strings.SplitN(k, "(", 2)[0]
 		// classify the root-cache findings
@@ -429,8 +608,10 @@ func (w *verifWorld) restart(abrupt bool) {
 		if beforeD[k] != afterD[k] {
 			w.em.Monitor("restart-changes:webhook-delivery", fmt.Sprintf("%s delivered to [%s] before the restart and to [%s] after", k, beforeD[k], afterD[k]))
 		}
+		before[k], after[k] = beforeD[k], afterD[k]
 	}
 	w.step("Restart", "ODone true")
+	return before, after
 }
 
 func verifCopyRaw(t testing.TB, src, dst string) {
@@ -539,7 +720,7 @@ func (w *verifWorld) unknownRoot() types.Hash256 {
 	return r
 }
 
-func (w *verifWorld) form(v2 bool, wend uint64) {
+func (w *verifWorld) form(v2 bool, wend uint64) *verifContract {
 	c := w.newContract(v2, wend)
 	var err error
 	w.maybeFault()
@@ -553,11 +734,12 @@ func (w *verifWorld) form(v2 bool, wend uint64) {
 	fired := w.settle()
 	if err != nil {
 		w.failedOp("FormC", fired)
-		return
+		return nil
 	}
 	w.cs = append(w.cs, c)
 	w.step(fmt.Sprintf("FormC %d%%N %s %d%%N", c.num, coqBool(v2), wend), "ODone true")
 	w.em.Count(fmt.Sprintf("op:FormC v2=%v", v2))
+	return c
 }
 
 // pickLive picks a contract that can still be revised
@@ -574,33 +756,63 @@ func (w *verifWorld) pickLive(v2 bool) *verifContract {
 	return l[w.rng.Intn(len(l))]
 }
 
-func (w *verifWorld) revise(v2 bool) {
+// a revision: "random" draws the changes (shrinking ones are common: the rows past the new
+// end must go, and only the next start shows whether they did), "append" adds n roots,
+// "shrink" cuts the list down to n roots, "replace" overwrites one root, "swap" swaps two
+type verifRevPlan struct {
+	kind string
+	n    int
+}
+
+// revise revises a random live contract; it reports whether the root list got shorter
+func (w *verifWorld) revise(v2 bool) (shrank bool) {
 	c := w.pickLive(v2)
 	if c == nil || len(w.sectors) == 0 {
-		return
+		return false
 	}
-	// one revision in six refers to a sector the host does not store: every check of the
-	// manager passes and the store call fails half-way
-	bogus := !w.noFaults && w.rng.Intn(6) == 0
+	_, shrank = w.reviseC(c, verifRevPlan{kind: "random"})
+	return shrank
+}
+
+func (w *verifWorld) someRoot() types.Hash256 { return w.sectors[w.rng.Intn(len(w.sectors))] }
+
+func (w *verifWorld) reviseC(c *verifContract, plan verifRevPlan) (ok, shrank bool) {
+	v2 := c.v2
+	// one random revision in six refers to a sector the host does not store: every check of
+	// the manager passes and the store call fails half-way
+	bogus := plan.kind == "random" && !w.noFaults && w.rng.Intn(6) == 0
 	cur := w.n.contracts.SectorRoots(c.id)
+	kind := plan.kind
+	if kind == "random" && v2 {
+		switch k := w.rng.Intn(20); {
+		case len(cur) == 0 || k < 9:
+			kind, plan.n = "append", 1+w.rng.Intn(2)
+		case k < 16:
+			kind, plan.n = "shrink", w.rng.Intn(len(cur))
+			if w.rng.Intn(4) == 0 {
+				plan.n = len(cur) - 1 // exactly one row to remove
+			}
+		default:
+			kind = "replace"
+		}
+	}
 	var err error
 	var fired bool
 	var final []types.Hash256
 	if v2 {
 		final = append([]types.Hash256(nil), cur...)
-		switch w.rng.Intn(4) {
-		case 0:
-			if len(final) > 0 {
-				final = final[:w.rng.Intn(len(final))]
+		switch kind {
+		case "append":
+			for i := 0; i < plan.n; i++ {
+				final = append(final, w.someRoot())
 			}
-		case 1:
-			if len(final) > 0 {
-				final[w.rng.Intn(len(final))] = w.sectors[w.rng.Intn(len(w.sectors))]
-			}
-		default:
-			for i := 0; i < 1+w.rng.Intn(2); i++ {
-				final = append(final, w.sectors[w.rng.Intn(len(w.sectors))])
-			}
+		case "shrink":
+			final = final[:plan.n]
+		case "replace":
+			final[w.rng.Intn(len(final))] = w.someRoot()
+		case "swap":
+			i, j := w.rng.Intn(len(final)), w.rng.Intn(len(final))
+			final[i], final[j] = final[j], final[i]
 		}
 		if bogus {
 			final = append(final, w.unknownRoot())
@@ -624,17 +836,35 @@ func (w *verifWorld) revise(v2 bool) {
 		if uerr != nil {
 			w.t.Fatal(uerr)
 		}
-		for i := 0; i < 1+w.rng.Intn(3); i++ {
-			switch k := w.rng.Intn(6); {
-			case k < 3 || u.SectorCount() == 0:
-				u.AppendSector(w.sectors[w.rng.Intn(len(w.sectors))])
-			case k == 3:
+		act := func(kind string, n int) {
+			switch {
+			case kind == "append" || u.SectorCount() == 0:
+				for i := 0; i < n; i++ {
+					u.AppendSector(w.someRoot())
+				}
+			case kind == "shrink":
+				u.TrimSectors(u.SectorCount() - uint64(n))
+			case kind == "swap":
 				u.SwapSectors(uint64(w.rng.Intn(int(u.SectorCount()))), uint64(w.rng.Intn(int(u.SectorCount()))))
-			case k == 4:
-				u.TrimSectors(uint64(1 + w.rng.Intn(int(u.SectorCount()))))
 			default:
-				u.UpdateSector(w.sectors[w.rng.Intn(len(w.sectors))], uint64(w.rng.Intn(int(u.SectorCount()))))
+				u.UpdateSector(w.someRoot(), uint64(w.rng.Intn(int(u.SectorCount()))))
 			}
+		}
+		if kind == "random" {
+			for i := 0; i < 1+w.rng.Intn(3); i++ {
+				switch k := w.rng.Intn(10); {
+				case k < 4 || u.SectorCount() == 0:
+					act("append", 1)
+				case k < 5:
+					act("swap", 0)
+				case k < 8:
+					act("shrink", w.rng.Intn(int(u.SectorCount())))
+				default:
+					act("replace", 0)
+				}
+			}
+		} else {
+			act(kind, plan.n)
 		}
 		if bogus {
 			u.AppendSector(w.unknownRoot())
@@ -656,13 +886,20 @@ func (w *verifWorld) revise(v2 bool) {
 	}
 	if err != nil {
 		w.failedOp(fmt.Sprintf("Commit v2=%v", v2), fired)
-		return
+		return false, false
 	}
 	if len(final) > 0 {
 		c.hadRoots = true
 	}
 	w.step(fmt.Sprintf("Commit %d%%N %s", c.num, w.rootsTerm(final)), "ODone true")
 	w.em.Count(fmt.Sprintf("op:Commit v2=%v", v2))
+	switch {
+	case len(final) < len(cur) && len(final) == 0:
+		w.em.Count(fmt.Sprintf("op:Commit v2=%v shrinks the list to nothing", v2))
+	case len(final) < len(cur):
+		w.em.Count(fmt.Sprintf("op:Commit v2=%v shrinks the list", v2))
+	}
+	return true, len(final) < len(cur)
 }
 
 func (w *verifWorld) renew(v2 bool) {
@@ -721,11 +958,18 @@ func (w *verifWorld) mine(nb int) {
 	if w.rng.Intn(2) == 0 {
 		addr = types.StandardUnlockHash(w.hostKey.PublicKey())
 	}
-	verifMine(w.t, w.cm, addr, nb)
-	if !w.n.waitSynced(w.t, 20*time.Second) {
-		w.t.Fatal("index manager does not sync")
+	for i := 0; i < nb; i++ {
+		// generous: finding a block of the test network takes microseconds on an idle machine
+		b, ok := coreutils.MineBlock(w.cm, addr, 2*time.Minute)
+		if !ok {
+			w.t.Fatal("failed to mine block")
+		} else if err := w.cm.AddBlocks([]types.Block{b}); err != nil {
+			w.t.Fatal(err)
+		}
 	}
-	verifQuiesce(w.n.ctl, 100*time.Millisecond)
+	// the indexer publishes its tip after the post-commit actions of the last batch, so
+	// nothing is in flight once the tips agree
+	w.synced()
 	w.step(fmt.Sprintf("Mine %d%%N", nb), fmt.Sprintf("OTip %d%%N", w.n.index.Tip().Height))
 	w.em.Count("op:Mine")
 }
@@ -1001,8 +1245,10 @@ func (w *verifWorld) setReadOnly() {
 	if len(w.vols) == 0 {
 		return
 	}
-	id := w.vols[w.rng.Intn(len(w.vols))]
-	ro := w.rng.Intn(2) == 0
+	w.setReadOnlyOf(w.vols[w.rng.Intn(len(w.vols))], w.rng.Intn(2) == 0)
+}
+
+func (w *verifWorld) setReadOnlyOf(id int64, ro bool) {
 	w.maybeFault()
 	err := w.n.volumes.SetReadOnly(id, ro)
 	if fired := w.settle(); fired && err != nil {
@@ -1010,7 +1256,135 @@ func (w *verifWorld) setReadOnly() {
 		return
 	}
 	w.step(fmt.Sprintf("SetRO %d%%N %s", id, coqBool(ro)), "ODone "+coqBool(err == nil))
-	w.em.Count("op:SetRO")
+	w.em.Count(fmt.Sprintf("op:SetRO accepted=%v", err == nil))
+}
+
+// growVolume resizes a volume to one or two sectors more (no injected fault: the resize
+// runs in the background and reports through a channel)
+func (w *verifWorld) growVolume(id int64) {
+	v, err := w.n.volumes.Volume(id)
+	if err != nil {
+		w.t.Fatal("Volume:", err)
+	}
+	total := v.TotalSectors + uint64(1+w.rng.Intn(2))
+	res := make(chan error, 1)
+	err = w.n.volumes.ResizeVolume(context.Background(), id, total, res)
+	if err == nil {
+		if err = <-res; err != nil {
+			w.t.Fatal("ResizeVolume (grow) was accepted and failed:", err)
+		}
+		// the result is sent after the status went back to ready
+	}
+	w.step(fmt.Sprintf("GrowVol %d%%N %d%%N", id, total), "ODone "+coqBool(err == nil))
+	w.em.Count(fmt.Sprintf("op:GrowVol accepted=%v", err == nil))
+}
+
+// ---- volume data files that cannot be opened
+
+func (w *verifWorld) hiddenPath(id int64) string {
+	return filepath.Join(w.n.dir, "away", filepath.Base(w.volPath[id]))
+}
+
+// hideVolFile moves the data file of a volume out of the way.  The running host keeps the
+// file it has open; the next start will not find it.
+func (w *verifWorld) hideVolFile(id int64) {
+	if w.hidden[id] {
+		return
+	}
+	os.MkdirAll(filepath.Join(w.n.dir, "away"), 0o755)
+	if err := os.Rename(w.volPath[id], w.hiddenPath(id)); err != nil {
+		w.t.Fatal(err)
+	}
+	w.hidden[id] = true
+	w.step(fmt.Sprintf("HideVolFile %d%%N", id), "ODone true")
+	w.em.Count("op:HideVolFile")
+}
+
+func (w *verifWorld) restoreVolFile(id int64) {
+	if !w.hidden[id] {
+		return
+	}
+	if err := os.Rename(w.hiddenPath(id), w.volPath[id]); err != nil {
+		w.t.Fatal(err)
+	}
+	w.hidden[id] = false
+	w.step(fmt.Sprintf("RestoreVolFile %d%%N", id), "ODone true")
+	w.em.Count("op:RestoreVolFile")
+}
+
+func (w *verifWorld) pickVol(hidden bool) (int64, bool) {
+	var l []int64
+	for _, id := range w.vols {
+		if w.hidden[id] == hidden {
+			l = append(l, id)
+		}
+	}
+	if len(l) == 0 {
+		return 0, false
+	}
+	return l[w.rng.Intn(len(l))], true
+}
+
+func (w *verifWorld) closeBudgets() {
+	for w.openBudgets() {
+		w.closeBudget()
+	}
+}
+
+// restartObserved: what the model is asked about a restart
+func (w *verifWorld) restartObserved(abrupt bool) (map[string]string, map[string]string) {
+	w.closeBudgets()
+	if w.rng.Intn(2) == 0 {
+		w.observe()
+	}
+	before, after := w.restart(abrupt)
+	w.observe()
+	return before, after
+}
+
+// fileRoundTrip: the data file of a volume is away at one start and back at the next.
+// While it is away the volume is unavailable and refuses SetReadOnly / ResizeVolume; once
+// it is back the host must be, getter by getter and delivery by delivery, where it was
+// before the file went away (when nothing else happened in between), and a further
+// restart must change nothing.
+func (w *verifWorld) fileRoundTrip(id int64, abrupt bool, busy bool) {
+	w.closeBudgets()
+	settled := len(w.filesChanged()) == 0
+	w.hideVolFile(id)
+	s0, s1 := w.restartObserved(abrupt)
+	w.setReadOnlyOf(id, w.rng.Intn(2) == 0)
+	w.growVolume(id)
+	if busy {
+		// life goes on while the volume is away
+		w.writeSector()
+		w.revise(w.rng.Intn(2) == 0)
+		w.mine(1)
+		settled = false
+	}
+	if w.rng.Intn(3) == 0 {
+		// the same file is still missing at another start: nothing may change
+		w.restartObserved(false)
+	}
+	w.restoreVolFile(id)
+	_, s2 := w.restartObserved(abrupt && w.rng.Intn(2) == 0)
+	if settled {
+		var keys []string
+		for k := range s0 {
+			keys = append(keys, k)
+		}
+		sort.Strings(keys)
+		for _, k := range keys {
+			// what the first of the two restarts changed although it does not follow the
+			// file has been reported there (the recorded findings about cached roots)
+			followsFile := strings.Contains(k, ".availability(#") || strings.HasPrefix(k, "storage.VolumeManager.ReadSector(")
+			if s0[k] != s2[k] && (s0[k] == s1[k] || followsFile) {
+				w.em.Monitor("file-restored-state-differs:"+strings.SplitN(k, "(", 2)[0], fmt.Sprintf("volume %d: file moved away, start, file moved back, start — %s was %.300s before and is %.300s now", id, k, s0[k], s2[k]))
+			}
+		}
+		w.em.Count("file-roundtrip: compared with the state before the file went away")
+	}
+	w.restartObserved(false)
+	w.em.Count("file-roundtrip")
 }
 
 // verifSettingsRoundTrip: settings and pinned settings written several times (every field
@@ -1097,6 +1471,8 @@ func verifSettingsRoundTrip(t *testing.T, em *verifEmitter, dir string) {
 	}
 }
 
+const verifC18Directed = 9
+
 func TestVerifC18(t *testing.T) {
 	em := newVerifEmitter(t, "From HostdBase Require Import Base.\nFrom HostdRestart Require Import Model.", "case", "check")
 	defer em.Close()
@@ -1104,7 +1480,7 @@ func TestVerifC18(t *testing.T) {
 	defer sink.srv.Close()
 	root := t.TempDir()
 	n := verifN(20)
-	for id := 0; id < n+3; id++ {
+	for id := 0; id < n+verifC18Directed; id++ {
 		if em.Skip(id) {
 			continue
 		}
@@ -1114,6 +1490,7 @@ func TestVerifC18(t *testing.T) {
 		cm, _ := verifNewChain(t, true)
 		w := &verifWorld{t: t, em: em, rng: rng, dir: dir, cm: cm, sink: sink,
 			hostKey: verifKey(rng), renterKey: verifKey(rng), volPath: map[int64]string{}, budgets: map[int]*accounts.Budget{},
+			hidden: map[int64]bool{}, hiddenAtStart: map[int64]bool{},
 			data: map[types.Hash256]*[rhp2.SectorSize]byte{}}
 		w.uc = types.UnlockConditions{PublicKeys: []types.UnlockKey{w.renterKey.PublicKey().UnlockKey(), w.hostKey.PublicKey().UnlockKey()}, SignaturesRequired: 2}
 		for i := 0; i < 2; i++ {
@@ -1121,8 +1498,21 @@ func TestVerifC18(t *testing.T) {
 			w.accts4 = append(w.accts4, proto4.Account(verifKey(rng).PublicKey()))
 		}
 		w.n = verifOpenNode(t, dir, w.hostKey, cm, true, 3)
-		w.noFaults = id < 3
+		w.noFaults = id < verifC18Directed
 		desc := "generated history with restarts"
+		if id < verifC18Directed {
+			desc = []string{
+				"directed: v1 contract with roots runs past its proof window; settings round trip",
+				"directed: v2 contract with roots is renewed",
+				"directed: nested webhook scopes, settings revisions, v1 renewal, abrupt stop",
+				"directed: v2 root list shrinks (to k>0, by one, to nothing), restart before the next append",
+				"directed: v1 root list is trimmed (to k>0, by one, to nothing), restart before the next append",
+				"directed: renewals with roots and shrinking the renewal, each followed by a restart",
+				"directed: volume data file missing at one start, back at the next (clean stops)",
+				"directed: volume data files missing at a start (abrupt stops, two volumes)",
+				"directed: every write path with an in-memory copy, each followed at once by a restart",
+			}[id]
+		}
 		em.BeginCase(id, desc)
 		// every history starts with a volume, stored sectors and a few blocks
 		w.addVolume(uint64(6 + rng.Intn(4)))
@@ -1131,106 +1521,249 @@ func TestVerifC18(t *testing.T) {
 		}
 		w.mine(2)
 		w.setSettings(false)
-		switch id {
-		case 0:
-			verifSettingsRoundTrip(t, em, dir)
-			// directed: a v1 contract with roots runs past its proof window (the store drops
-			// its roots, the manager keeps them until the next start)
-			w.form(false, w.height()+4)
-			w.revise(false)
+		// a revision of contract c followed by observe / restart / observe
+		revRestart := func(c *verifContract, plan verifRevPlan, abrupt bool) {
+			w.reviseC(c, plan)
 			w.observe()
-			w.restart(false)
-			w.observe()
-			w.mine(6)
-			w.observe()
-			w.restart(false)
-			w.observe()
-		case 1:
-			// directed: a v2 contract with roots is renewed
-			w.form(true, w.height()+40)
-			w.revise(true)
-			w.revise(true)
-			w.renew(true)
-			w.observe()
-			w.restart(false)
-			w.observe()
-		case 2:
-			// directed: webhooks with nested scopes, settings revisions, a v1 renewal
-			w.registerHook()
-			w.registerHook()
-			w.registerHook()
-			w.updateHook()
-			// every settings column and every pinned flag changes after the first write
-			w.setSettings(true)
-			w.setSettings(true)
-			w.pinUpdate(false)
-			w.pinUpdate(true)
-			w.pinUpdate(true)
-			w.form(false, w.height()+40)
-			w.revise(false)
-			w.renew(false)
-			w.observe()
-			w.restart(false)
-			w.observe()
-			w.updateHook()
-			w.removeHook()
-			w.restart(true)
-			w.observe()
-		default:
-			steps := 14 + rng.Intn(18)
-			for i := 0; i < steps; i++ {
-				switch k := rng.Intn(100); {
-				case k < 8:
-					w.form(false, w.height()+uint64(4+rng.Intn(40)))
-				case k < 16:
-					w.form(true, w.height()+uint64(4+rng.Intn(40)))
-				case k < 30:
-					w.revise(rng.Intn(2) == 0)
-				case k < 36:
-					w.renew(rng.Intn(2) == 0)
-				case k < 42:
-					w.mine(1 + rng.Intn(4))
-				case k < 50:
-					w.registerHook()
-				case k < 55:
-					w.updateHook()
-				case k < 58:
-					w.removeHook()
-				case k < 61:
-					w.setSettings(false)
-				case k < 64:
-					w.pinUpdate(w.rng.Intn(2) == 0)
-				case k < 70:
-					w.credit()
-				case k < 78:
-					w.budgetOp()
-				case k < 81:
-					w.regPut()
-				case k < 84:
-					w.setReadOnly()
-				case k < 86 && len(w.vols) < 3:
-					w.addVolume(uint64(3 + rng.Intn(3)))
-				case k < 88 && len(w.sectors) < 8:
-					w.writeSector()
-				case k < 94:
-					w.observe()
-				default:
-					for w.openBudgets() {
-						w.closeBudget()
-					}
-					w.observe()
-					w.restart(rng.Intn(3) == 0)
-					w.observe()
-				}
-			}
-			for w.openBudgets() {
-				w.closeBudget()
-			}
-			w.observe()
-			w.restart(false)
+			w.restart(abrupt)
 			w.observe()
 		}
-		w.n.Close()
+		panicked := false
+		func() {
+			// a panic of the code under test ends the case and is reported as a finding
+			defer func() {
+				if r := recover(); r != nil {
+					panicked = true
+					em.Monitor("host-code-panics", fmt.Sprintf("%v\n%.1500s", r, debug.Stack()))
+				}
+			}()
+			switch id {
+			case 0:
+				verifSettingsRoundTrip(t, em, dir)
+				// directed: a v1 contract with roots runs past its proof window (the store drops
+				// its roots, the manager keeps them until the next start)
+				w.form(false, w.height()+4)
+				w.revise(false)
+				w.observe()
+				w.restart(false)
+				w.observe()
+				w.mine(6)
+				w.observe()
+				w.restart(false)
+				w.observe()
+			case 1:
+				// directed: a v2 contract with roots is renewed
+				c := w.form(true, w.height()+40)
+				w.reviseC(c, verifRevPlan{"append", 2})
+				w.reviseC(c, verifRevPlan{"append", 1})
+				w.renew(true)
+				w.observe()
+				w.restart(false)
+				w.observe()
+			case 2:
+				// directed: webhooks with nested scopes, settings revisions, a v1 renewal
+				w.registerHook()
+				w.registerHook()
+				w.registerHook()
+				w.updateHook()
+				// every settings column and every pinned flag changes after the first write
+				w.setSettings(true)
+				w.setSettings(true)
+				w.pinUpdate(false)
+				w.pinUpdate(true)
+				w.pinUpdate(true)
+				w.form(false, w.height()+40)
+				w.revise(false)
+				w.renew(false)
+				w.observe()
+				w.restart(false)
+				w.observe()
+				w.updateHook()
+				w.removeHook()
+				w.restart(true)
+				w.observe()
+			case 3, 4:
+				// directed: the root list of a v2 (case 3) / v1 (case 4) contract shrinks — to
+				// k > 0 roots, by exactly one root, to nothing — and the host is restarted before
+				// anything is appended again: the manager's cache is right either way, only the
+				// start reads the rows back
+				c := w.form(id == 3, w.height()+60)
+				revRestart(c, verifRevPlan{"append", 5}, false)
+				revRestart(c, verifRevPlan{"shrink", 3}, false)
+				revRestart(c, verifRevPlan{"shrink", 2}, true)
+				revRestart(c, verifRevPlan{"swap", 0}, false)
+				revRestart(c, verifRevPlan{"shrink", 0}, false)
+				w.reviseC(c, verifRevPlan{"append", 3})
+				revRestart(c, verifRevPlan{"shrink", 1}, true)
+				revRestart(c, verifRevPlan{"replace", 0}, false)
+				w.reviseC(c, verifRevPlan{"append", 2})
+				revRestart(c, verifRevPlan{"shrink", 0}, true)
+				revRestart(c, verifRevPlan{"append", 1}, false)
+			case 5:
+				// directed: renewals of contracts with roots, and shrinking the renewed contract,
+				// each followed by a restart
+				c := w.form(false, w.height()+60)
+				w.reviseC(c, verifRevPlan{"append", 4})
+				w.renew(false)
+				w.observe()
+				w.restart(false)
+				w.observe()
+				nc := w.cs[len(w.cs)-1]
+				revRestart(nc, verifRevPlan{"shrink", 2}, false)
+				w.renew(false)
+				w.restart(true)
+				w.observe()
+				revRestart(w.cs[len(w.cs)-1], verifRevPlan{"shrink", 0}, false)
+				// a v2 contract without roots is renewed (with roots: case 1), the renewal grows and shrinks
+				c2 := w.form(true, w.height()+60)
+				w.renew(true)
+				w.restart(false)
+				w.observe()
+				_ = c2
+				n2 := w.cs[len(w.cs)-1]
+				w.reviseC(n2, verifRevPlan{"append", 3})
+				revRestart(n2, verifRevPlan{"shrink", 1}, false)
+			case 6, 7:
+				// directed: a volume's data file is missing at one start and back at the next
+				// (case 6 clean stops, case 7 abrupt ones and two volumes away at the same time)
+				abrupt := id == 7
+				w.addVolume(4)
+				w.writeSector()
+				c := w.form(true, w.height()+60)
+				w.reviseC(c, verifRevPlan{"append", 3})
+				w.registerHook()
+				w.observe()
+				w.fileRoundTrip(w.vols[0], abrupt, false)
+				w.setReadOnlyOf(w.vols[1], true)
+				w.fileRoundTrip(w.vols[1], abrupt, false)
+				w.fileRoundTrip(w.vols[0], abrupt, true)
+				if abrupt {
+					w.hideVolFile(w.vols[0])
+					w.hideVolFile(w.vols[1])
+					w.restartObserved(true)
+					w.restoreVolFile(w.vols[0])
+					w.restartObserved(false) // one back, one still away
+					w.setReadOnlyOf(w.vols[0], true)
+					w.setReadOnlyOf(w.vols[1], false)
+					w.restoreVolFile(w.vols[1])
+					w.restartObserved(true)
+					w.restartObserved(false)
+					w.growVolume(w.vols[1])
+					w.restartObserved(false)
+				}
+			case 8:
+				// directed: every other write path that has an in-memory copy, each followed
+				// at once by a restart
+				after := func(op func()) {
+					op()
+					w.restartObserved(w.rng.Intn(3) == 0)
+				}
+				c := w.form(false, w.height()+60)
+				after(func() { w.registerHook() })
+				after(func() { w.updateHook() })
+				after(func() { w.registerHook() })
+				after(func() { w.removeHook() })
+				after(func() { w.setSettings(true) })
+				after(func() { w.pinUpdate(true) })
+				after(func() { w.credit() })
+				after(func() { w.budgetOp(); w.closeBudgets() })
+				after(func() { w.regPut() })
+				after(func() { w.setReadOnly() })
+				after(func() { w.growVolume(w.vols[0]) })
+				after(func() { w.addVolume(3) })
+				after(func() { w.mine(3) })
+				after(func() { w.reviseC(c, verifRevPlan{"append", 2}) })
+				after(func() { w.form(true, w.height()+30) })
+			default:
+				// every generated history has contracts of both versions with roots, a funded
+				// account and a hook to begin with
+				for _, v2 := range []bool{false, true} {
+					if c := w.form(v2, w.height()+uint64(6+rng.Intn(40))); c != nil {
+						w.reviseC(c, verifRevPlan{"append", 2 + rng.Intn(3)})
+					}
+				}
+				w.credit()
+				w.registerHook()
+				steps := 8 + rng.Intn(12)
+				for i := 0; i < steps; i++ {
+					// how likely a restart follows the operation at once: what an operation left
+					// in the store shows only when the managers load it again
+					restartOneIn := 4
+					switch k := rng.Intn(100); {
+					case k < 4:
+						w.form(false, w.height()+uint64(4+rng.Intn(40)))
+					case k < 8:
+						w.form(true, w.height()+uint64(4+rng.Intn(40)))
+					case k < 30:
+						if w.revise(rng.Intn(2) == 0) {
+							restartOneIn = 2
+						}
+					case k < 36:
+						w.renew(rng.Intn(2) == 0)
+						restartOneIn = 3
+					case k < 41:
+						w.mine(1 + rng.Intn(4))
+					case k < 46:
+						w.registerHook()
+					case k < 51:
+						w.updateHook()
+						restartOneIn = 3
+					case k < 54:
+						w.removeHook()
+						restartOneIn = 3
+					case k < 58:
+						w.setSettings(false)
+					case k < 61:
+						w.pinUpdate(w.rng.Intn(2) == 0)
+					case k < 66:
+						w.credit()
+					case k < 74:
+						w.budgetOp()
+					case k < 77:
+						w.regPut()
+					case k < 80:
+						w.setReadOnly()
+					case k < 82 && len(w.vols) < 3:
+						w.addVolume(uint64(3 + rng.Intn(3)))
+					case k < 84 && len(w.sectors) < 8:
+						w.writeSector()
+					case k < 86:
+						w.growVolume(w.vols[rng.Intn(len(w.vols))])
+					case k < 89:
+						// a volume file goes away or comes back on its own
+						if id, ok := w.pickVol(rng.Intn(2) == 0); ok {
+							if w.hidden[id] {
+								w.restoreVolFile(id)
+							} else {
+								w.hideVolFile(id)
+							}
+							restartOneIn = 2
+						}
+					case k < 92:
+						if id, ok := w.pickVol(false); ok {
+							w.fileRoundTrip(id, rng.Intn(3) == 0, rng.Intn(2) == 0)
+						}
+						restartOneIn = 0
+					case k < 95:
+						w.observe()
+						restartOneIn = 0
+					default:
+						restartOneIn = 1
+					}
+					if restartOneIn > 0 && rng.Intn(restartOneIn) == 0 {
+						w.restartObserved(rng.Intn(3) == 0)
+					}
+				}
+				w.closeBudgets()
+				w.observe()
+				w.restart(false)
+				w.observe()
+			}
+		}()
+		if !panicked {
+			// (after a panic the managers may hold locks: the host is abandoned)
+			w.n.Close()
+		}
 		em.EndCase(len(w.cs) > 0 || len(w.hooks) > 0)
 		os.RemoveAll(dir)
 	}
